@@ -83,8 +83,8 @@ def expected_graph(shape, im):
     return members, faces, cen
 
 
-def all_maps(n):
-    return list(itertools.product(range(-1, n), repeat=n))
+def all_maps(n, groups=None):
+    return list(itertools.product(range(-1, n if groups is None else groups), repeat=n))
 
 
 def _pick_map(api, K):
@@ -115,12 +115,12 @@ def mk_system(api, shape, env, chem):
     return system, grid, net, st, vol, gus, sus
 
 
-def cg_case(shape, ep, cp, thorough=False):
+def cg_case(shape, ep, cp, thorough=False, groups=None):
     n = shape[0] * shape[1] * shape[2]
     env = env_patterns(n)[ep]
     chem = chem_patterns(n)[cp]
-    maps = all_maps(n)
-    cid = "coarsegrain/%dx%dx%d/env%d/chem%d" % (shape + (ep, cp))
+    maps = all_maps(n, groups)
+    cid = "coarsegrain/%dx%dx%d/env%d/chem%d" % (shape + (ep, cp)) + ("" if groups is None else "/at-most-%d-groups" % groups)
     P = "C16/coarsegrain"
 
     def run(api):
@@ -172,7 +172,8 @@ def cg_case(shape, ep, cp, thorough=False):
         api.check(P + "/state-and-flag-lengths", len(cg.state) == S_ * Gn and len(cg.chemostats) == S_ * Gn)
 
     return Case(cid, run, functions=["check_index_map_validity", "grid_to_graph", "coarsegrain_grid", "coarsegrain_system"],
-                bounded="grid %dx%dx%d: all %d index maps in {-1..%d}^%d; volume, state and unit systems symbolic" % (shape + (len(maps), n - 1, n)),
+                bounded="grid %dx%dx%d: all %d index maps in {-1..%d}^%d; volume, state and unit systems symbolic" %
+                        (shape + (len(maps), (n if groups is None else groups) - 1, n)),
                 max_paths=len(maps) * 4 + 100, thorough_only=thorough)
 
 
@@ -249,5 +250,8 @@ for _sh in SHAPES_QUICK + SHAPES_THOROUGH:
                 continue
             CASES.append(cg_case(_sh, _ep, _cp, thorough=_th))
     CASES.append(uncg_case(_sh, thorough=_th))
+# non-square 2-D grids (w != h, both > 1): all maps with at most two groups
+CASES.append(cg_case((3, 2, 1), 0, 0, groups=2))
+CASES.append(cg_case((2, 3, 1), 1, 1, groups=2))
 CASES.append(Case("identity-map/real-engine", identity_case, functions=["simulate_script(cgmap=identity)", "coarsegrain_system",
                   "uncoarsegrain_trajectory"], sym=False, bounded="3 grids, deterministic engine, 50 steps, relative tolerance 1e-9"))
